@@ -11,6 +11,8 @@
 #include <unistd.h>
 #include "qlibc.h"
 #include "vfc.h"
+#include <sys/resource.h>
+#include <signal.h>
 /* the print helpers (debug()) run on real contents now and then: C11 covers what they read */
 static FILE *DEVNULL; static unsigned long DBGCTR;
 #define DEBUG_NOW() (((++DBGCTR) % 61) == 0 && (DEVNULL || (DEVNULL = fopen("/dev/null", "w"))))
@@ -33,8 +35,12 @@ static ent_t *M; static int MN, MCAP;
 static char COLLA[16] = "c1", COLLB[16] = "c2";
 /* long names (257, 300 and 4000 bytes; two of them differ only in the case of the last letter, two only in the last letter) */
 static char LONG1[258], LONG2[301], LONG3[301], LONG4[301], LONG5[4001];
-static const char *NAMES[] = {"a", "A", "b", "B", "ab", "aB", "Ab", "zz", COLLA, COLLB, LONG1, LONG2, LONG3, LONG4, LONG5};
-#define NNAMES 15
+static const char *NAMES[] = {"a", "A", "b", "B", "ab", "aB", "Ab", "zz", COLLA, COLLB, LONG1, LONG2, LONG3, LONG4, LONG5,
+                              "\xc3\xa9t\xc3\xa9-\xff\x80z", "\xc3\xa9T\xc3\xa9-\xff\x80Z"};   /* bytes >= 0x80 (UTF-8, Latin-1), two spellings */
+#define NNAMES 17
+/* every name exists in four copies that start 0..3 bytes into their block: equal names reach the table through differently aligned pointers */
+static char *NAMEV[NNAMES][4];
+static void name_variants(void) { for (int i = 0; i < NNAMES; i++) for (int o = 0; o < 4; o++) { size_t l = strlen(NAMES[i]) + 1; char *b = hm_alloc(l + (size_t)o); memcpy(b + o, NAMES[i], l); NAMEV[i][o] = b + o; } }
 static void long_names(void) {
     memset(LONG1, 'n', 257); memset(LONG2, 'n', 300); memset(LONG3, 'n', 300); memset(LONG4, 'n', 300); memset(LONG5, 'n', 4000);
     LONG2[299] = 'a'; LONG3[299] = 'A'; LONG4[299] = 'b'; LONG5[3999] = 'q';
@@ -186,6 +192,21 @@ static void op_remove(const char *name) {
     vf_count(m ? "remove_present" : "remove_absent", 1); if (m > 1) vf_count("remove_multiple", 1);
     if (r != (size_t)m) judge("C08", "remove-count", "remove(%s) returned %zu, model removed %d", name, r, m);
 }
+/* the key argument is the table's own string: the name pointer of a stored entry, as a walk without the copy flag hands it out
+ * (remove(tbl, obj.name); putstr(tbl, obj.name, ...) on a unique table). The entry - and the string - goes away in the middle of the call. */
+static void op_alias(bool put) {
+    if (!MN) return;
+    int k = (int)rng_below(&R, (uint32_t)MN); qlisttbl_obj_t *o = T->first; for (int i = 0; i < k && o; i++) o = o->next;
+    if (!o || !o->name) return;
+    char *copy = vf_xdup(o->name, strlen(o->name) + 1);
+    if (put) { size_t vl = gen_value(true); vf_log("putstr through the stored name pointer of entry %d (%s) v=%s", k, copy, vf_hex(VBUF, vl));
+               if (!T->putstr(T, o->name, (char *)VBUF)) judge("C08", "put-failed", "putstr failed"); m_put(copy, VBUF, vl, oT); vf_count("puts_through_a_stored_name_pointer", 1); }
+    else { vf_log("remove through the stored name pointer of entry %d (%s)", k, copy);
+           size_t r = T->remove(T, o->name); int m = m_remove_all(copy); if (m > 1) vf_count("remove_multiple", 1);
+           if (r != (size_t)m) judge("C08", "remove-count", "remove(%s) through the entry's own name pointer returned %zu, model removed %d", copy, r, m);
+           vf_count("removes_through_a_stored_name_pointer", 1); }
+    hm_free(copy);
+}
 /* walk (full or name-filtered); optionally removeobj of the k-th visited entry during the walk */
 static void op_walk(const char *name, bool newmem, int remove_at) {
     qlisttbl_obj_t obj; memset(&obj, 0, sizeof obj);
@@ -220,6 +241,33 @@ static void op_sort(void) {
     for (int i = 1; i < MN; i++) { ent_t e = M[i]; int j = i - 1; while (j >= 0 && ncmp(M[j].name, e.name) > 0) { M[j + 1] = M[j]; j--; } M[j + 1] = e; }
     vf_count("sorts", 1);
 }
+/* save() onto a device that runs full: the file size limit of the process is lowered to k bytes (SIGXFSZ ignored, write() fails with EFBIG or is
+ * cut short), or the target is /dev/full. save() may refuse; if it reports success, loading the file must reproduce every entry. */
+static void op_save_fault(void) {
+    for (int i = 0; i < MN; i++) if (M[i].v[M[i].vl - 1] != 0 || strlen((char *)M[i].v) + 1 != M[i].vl) return;
+    if (!MN) return;
+    bool encode = true; char sep = "=:|"[rng_below(&R, 3)];
+    if (rng_chance(&R, 1, 5)) { vf_log("save to /dev/full n=%d", MN); vf_count("saves_onto_a_full_device", 1);
+        if (T->save(T, "/dev/full", sep, encode)) judge("C08", "save-success-on-full-device", "save() of %d entries to /dev/full reported success", MN); return; }
+    size_t est = 120; for (int i = 0; i < MN; i++) est += strlen(M[i].name) + 2 + 3 * M[i].vl;
+    size_t k = 1 + rng_below(&R, (uint32_t)est);
+    char path[128]; snprintf(path, sizeof path, "listtbl-%d-%d.lim", VF.shard, (int)getpid());
+    vf_log("save with the file size limit at %zu bytes n=%d", k, MN);
+    struct rlimit old, lim; getrlimit(RLIMIT_FSIZE, &old); lim = old; lim.rlim_cur = k; signal(SIGXFSZ, SIG_IGN);
+    setrlimit(RLIMIT_FSIZE, &lim);
+    bool ok = T->save(T, path, sep, encode);
+    setrlimit(RLIMIT_FSIZE, &old);
+    vf_count(ok ? "size_limited_saves_reported_success" : "size_limited_saves_refused", 1);
+    if (ok) {
+        qlisttbl_t *t2 = qlisttbl(0); if (!t2) exit(2);
+        ssize_t n = t2->load(t2, path, sep, encode);
+        if (n != MN) judge("C08", "save-truncated-reported-success", "save() under a %zu-byte file size limit reported success, load() of that file delivers %zd of %d entries", k, n, MN);
+        else { int i = 0; for (qlisttbl_obj_t *o = t2->first; o && i < MN; o = o->next, i++) if (strcmp(o->name, M[i].name) || o->size != M[i].vl || memcmp(o->data, M[i].v, M[i].vl)) {
+                   judge("C08", "save-truncated-reported-success", "save() under a %zu-byte file size limit reported success, entry %d reloads as %s", k, i, vf_hex(o->data, o->size)); break; } }
+        t2->free(t2);
+    }
+    unlink(path);
+}
 static void op_saveload(void) {
     /* string values only */
     for (int i = 0; i < MN; i++) if (M[i].v[M[i].vl - 1] != 0 || strlen((char *)M[i].v) + 1 != M[i].vl) return;
@@ -253,7 +301,7 @@ static void history(long caseno) {
     table_new(opt);
     bool strings_only = rng_chance(&R, 1, 2);   /* so that save/load is applicable */
     for (int op = 0; op < nops && !abandon; op++) {
-        const char *name = NAMES[rng_below(&R, rng_chance(&R, 1, 3) ? 3 : NNAMES)];
+        const char *name = NAMEV[rng_below(&R, rng_chance(&R, 1, 3) ? 3 : NNAMES)][rng_below(&R, 4)];
         uint32_t c = rng_below(&R, 100);
         if (c < 34) { if (strings_only) { char *kb = vf_xdup(name, strlen(name) + 1); size_t vl = gen_value(true); vf_log("putstr %s v=%s", name, vf_hex(VBUF, vl));
                                           if (!T->putstr(T, kb, (char *)VBUF)) judge("C08", "put-failed", "putstr failed"); m_put(name, VBUF, vl, oT); hm_free(kb); vf_count("puts", 1); }
@@ -265,7 +313,9 @@ static void history(long caseno) {
         else if (c < 78) op_walk(name, rng_chance(&R, 1, 2), -1);
         else if (c < 84) { int n = 0; for (int i = 0; i < MN; i++) if (eq(M[i].name, name)) n++; if (n) op_walk(name, false, (int)rng_below(&R, (uint32_t)n)); }
         else if (c < 90) { if (MN) { uint32_t w = rng_below(&R, 3); op_walk(NULL, false, w == 0 ? 0 : w == 1 ? MN - 1 : (int)rng_below(&R, (uint32_t)MN)); } }
-        else if (c < 94) op_sort();
+        else if (c < 91) op_sort();
+        else if (c < 92) op_save_fault();
+        else if (c < 94) op_alias(rng_chance(&R, 1, 2));
         else if (c < 98) op_saveload();
         else if (rng_chance(&R, 1, 3)) { vf_log("clear"); T->clear(T); m_clear(); vf_count("clear", 1); }
         else { /* refused calls are effect-free: invalid values for a name that may be present (a unique table must not drop the old entry first) */
@@ -296,7 +346,7 @@ int main(int argc, char **argv) {
     if (P != 8 && P != 11) { fprintf(stderr, "h_listtbl: unsupported property %s\n", VF.prop); return 2; }
     vf_ledger_enable(true);
     long ncases = vf_arg_long("cases", 960);
-    find_collision(); long_names();
+    find_collision(); long_names(); name_variants();
     for (long c = 0; c < ncases; c++) if (vf_mine(c)) history(c);
     return vf_finish() ? 1 : 0;
 }
